@@ -466,7 +466,8 @@ fn parse_proguard_header(bytes: &[u8]) -> Result<(ProguardRecord, &[u8]), ParseE
     let bytes = parse_prefix(bytes, b"#")?;
 
     if let Ok(bytes) = parse_prefix(bytes, SOURCE_FILE_PREFIX) {
-        let (value, bytes) = parse_until(bytes, |c| *c == b'"')?;
+        // The file name must end on this line; never scan across a line break.
+        let (value, bytes) = parse_until(bytes, |c| *c == b'"' || is_newline(c))?;
         let bytes = parse_prefix(bytes, br#""}"#)?;
 
         let record = ProguardRecord::Header {
